@@ -45,7 +45,7 @@ Absent == "-"
 
 NoFiles == [k \in Keys |-> Absent]
 EmptyFs == [exists |-> FALSE, hdr |-> {}, bad |-> {}, npy |-> NoFiles, npz |-> NoFiles, meta |-> "m0", rec |-> FALSE]
-NoObj == [exists |-> FALSE, open |-> FALSE, ro |-> FALSE, cache |-> <<>>]
+NoObj == [exists |-> FALSE, open |-> FALSE, ro |-> FALSE, cache |-> <<>>, rc |-> FALSE]   \* rc: the recipe is in the recipes cache
 
 (* replies: one record shape for every call, so that TLC can always compare them *)
 R(kind, s, ks, ps) == [kind |-> kind, s |-> s, ks |-> ks, ps |-> ps]
@@ -112,7 +112,7 @@ ImplCreate ==
   /\ ~obj.exists
   /\ UNCHANGED arc2
   /\ IF arc.exists THEN ImplRefuse("OutputExistsError")
-     ELSE /\ obj' = [exists |-> TRUE, open |-> TRUE, ro |-> FALSE, cache |-> <<>>]
+     ELSE /\ obj' = [exists |-> TRUE, open |-> TRUE, ro |-> FALSE, cache |-> <<>>, rc |-> FALSE]
           /\ dir' = [EmptyFs EXCEPT !.exists = TRUE]
           /\ mmeta' = "m0"
           /\ reply' = Ok
@@ -130,7 +130,7 @@ ImplOpen(ro) ==
   /\ IF ~arc.exists THEN ImplRefuse("FileNotFoundError")
      ELSE IF ~Loadable(arc) THEN ImplRefuse(LoadError(arc))
      ELSE /\ obj' = [exists |-> TRUE, open |-> TRUE, ro |-> ro,
-                     cache |-> [k \in arc.hdr |-> None]]
+                     cache |-> [k \in arc.hdr |-> None], rc |-> FALSE]
           /\ dir' = arc
           /\ mmeta' = arc.meta
           /\ reply' = Ok
@@ -263,9 +263,21 @@ ImplRecipe ==
   /\ IF ~obj.open THEN ImplRefuse("ClosedOperator")
      ELSE IF obj.ro THEN ImplRefuse("ReadOnlyOperator")
      ELSE /\ dir' = [dir EXCEPT !.rec = TRUE]
+          /\ obj' = [obj EXCEPT !.rc = TRUE]
           /\ reply' = Ok
-          /\ UNCHANGED <<obj, arc, mmeta>>
+          /\ UNCHANGED <<arc, mmeta>>
 Recipe == ImplRecipe /\ UNCHANGED g /\ last' = [op |-> "recipe", k |-> "-", v |-> "-", f |-> "-", m |-> "-"]
+
+(* eko.recipes[r]: a contentless lookup registers the header in the cache *)
+ImplGetRecipe ==
+  /\ obj.exists
+  /\ UNCHANGED arc2
+  /\ IF ~obj.open THEN ImplRefuse("ClosedOperator")
+     ELSE IF obj.rc THEN /\ reply' = Ok /\ UNCHANGED <<obj, dir, arc, mmeta>>
+     ELSE IF dir.exists /\ dir.rec
+          THEN /\ obj' = [obj EXCEPT !.rc = TRUE] /\ reply' = Ok /\ UNCHANGED <<dir, arc, mmeta>>
+          ELSE ImplRefuse("LookupError")
+GetRecipe == ImplGetRecipe /\ UNCHANGED g /\ last' = [op |-> "getrecipe", k |-> "-", v |-> "-", f |-> "-", m |-> "-"]
 
 (* eko.dump() on the registered path *)
 ImplDump ==
@@ -357,7 +369,7 @@ Next ==
   \/ Deepcopy \/ CreateBad("suffix") \/ CreateBad("cards")
   \/ Iter \/ Items \/ Unload \/ Sync
   \/ \E m \in Metas : SetMeta(m)
-  \/ Update \/ Recipe \/ Dump \/ Close \/ Drop
+  \/ Update \/ Recipe \/ GetRecipe \/ Dump \/ Close \/ Drop
 
 Spec == Init /\ [][Next]_vars
 
@@ -393,7 +405,7 @@ C39_Refused == [][(g.mode \in {"ro", "closed"} /\ last'.op \in {"set", "update",
                      => reply'.kind = "exc"]_vars
 
 TypeOK ==
-  /\ obj.exists \in BOOLEAN /\ obj.open \in BOOLEAN /\ obj.ro \in BOOLEAN
+  /\ obj.exists \in BOOLEAN /\ obj.open \in BOOLEAN /\ obj.ro \in BOOLEAN /\ obj.rc \in BOOLEAN
   /\ DOMAIN obj.cache \subseteq Keys
   /\ \A k \in DOMAIN obj.cache : obj.cache[k] \in Vals \cup {None}
   /\ dir.hdr \subseteq Keys /\ arc.hdr \subseteq Keys
